@@ -138,3 +138,111 @@ def c14(tier, seed):
     out.add_vh(run_vh(cmd), only={"C14"})
     _trace_check(out, "C14", "Trace_PPOPRF", "Trace_PPOPRF.cfg", tr, cmd, 12 if thorough else 4, "server history")
     return out
+
+
+def _star_lines(out, cfg, tag, workers=8, timeout=1800):
+    """Run MC_Star with a config; returns (cfg_path, lines_path, n_lines)."""
+    res = run_tlc("MC_Star", cfg, workers=workers, timeout=timeout, tags=("STARCFG", "RECOVER"), tag=tag, heap="6g")
+    out.add_tlc(res, "MC_Star/" + cfg)
+    wd = workdir(tag + "-tbl")
+    cp = os.path.join(wd, cfg + ".clients.json")
+    lp = os.path.join(wd, cfg + ".lines.ndjson")
+    if not res.lines.get("STARCFG"):
+        if res.violation:
+            return None, None, 0
+        raise ToolError("TLC emitted no STARCFG line for " + cfg)
+    write_ndjson(cp, res.lines["STARCFG"][:1])
+    write_ndjson(lp, res.lines.get("RECOVER", []))
+    return cp, lp, len(res.lines.get("RECOVER", []))
+
+
+def _star_secrecy(out, cfg):
+    """State-independent secrecy invariants (knowledge closure) — TLC evaluates them at start-up."""
+    res = run_tlc("MC_Star", cfg, workers=2, timeout=600, tag="secrecy")
+    out.add_tlc(res, "MC_Star/" + cfg)
+
+
+def _recover_family(out, pid, cfgs, seed, vals, stride=1):
+    for cfg in cfgs:
+        cp, lp, n = _star_lines(out, cfg, f"{pid}-{cfg[:-4]}")
+        if cp is None:
+            continue
+        rep = run_vh(["recover-replay", "--cfg", cp, "--lines", lp, "--prop", pid, "--seed", seed,
+                      "--vals", vals, "--stride", stride], timeout=3000)
+        out.add_vh(rep, only={pid})
+
+
+def _star_big(out, pid, seed, thorough):
+    """Binding B at large scope: random scenarios (thresholds up to 64 / 200) validated by Trace_Star."""
+    wd = workdir(pid + "-big")
+    tr = os.path.join(wd, "star.ndjson")
+    n = 24 if thorough else 8
+    cmd = ["star-record", "--out", tr, "--seed", seed, "--scenarios", n, "--maxt", 200 if thorough else 64,
+           "--prop", pid, "--selections", 60 if thorough else 40]
+    out.add_vh(run_vh(cmd, timeout=3000), only={pid})
+    _trace_check(out, pid, "Trace_Star", "Trace_Star.cfg", tr, cmd, n, "STAR recovery scenario")
+
+
+STAR_ASSUME = ("symbolic model: PRF/MAC/cipher outputs are ideal (terms equal iff identical; wrong-key decryption and "
+               "interpolation of points not on one low-degree polynomial give junk); abstract strings are mapped to bytes "
+               "by several injective valuations, thresholds 0..3 are used as they are")
+
+
+@check("C01")
+def c01(tier, seed):
+    out = Outcome("C01", tier, seed, "model_checking")
+    thorough = tier == "thorough"
+    out.rule = ("TLC enumerates every inbox sequence (repetition allowed) over the client population up to the length "
+                "bound and checks ThresholdRecovery; each honest behaviour predicted to recover is executed through "
+                "Message::generate -> to_bytes -> from_bytes -> share_recover -> derive_ske_key -> decrypt -> parse under "
+                "several byte valuations; distinct = (valuation, inbox sequence) whose recovery opened every report of the "
+                "group correctly; the random driver adds thresholds up to 64/200 validated by Trace_Star")
+    out.assumptions = [STAR_ASSUME]
+    _recover_family(out, "C01", ["Star_q_honest.cfg"] + (["Star_t_honest.cfg"] if thorough else []), seed,
+                    8 if thorough else 4)
+    _star_big(out, "C01", seed, thorough)
+    return out
+
+
+@check("C05")
+def c05(tier, seed):
+    out = Outcome("C05", tier, seed, "fault_enumeration")
+    thorough = tier == "thorough"
+    out.rule = ("TLC enumerates every inbox sequence with at most one altered share (10 field-level fault kinds x every "
+                "position) and predicts Err / Ok(sharing of the first share); the harness realises each fault on the "
+                "encoded share and calls share_recover; distinct_nontrivial = distinct (valuation, inbox) with a fault or a "
+                "predicted error; the byte-level sweep alters every byte of the first and of a later share")
+    out.assumptions = [STAR_ASSUME, "valuations with 1-byte symbols are skipped for altered collections (a wrong key "
+                       "reproduces a 1-byte plaintext with probability 2^-8)"]
+    _recover_family(out, "C05", ["Star_q_faults.cfg", "Star_a_faults.cfg"] + (["Star_t_faults.cfg"] if thorough else []),
+                    seed, 6 if thorough else 4, stride=1 if thorough else 2)
+    for k in range(6 if thorough else 1):
+        out.add_vh(run_vh(["tamper-sweep", "--seed", seed + k, "--positions", "all"], timeout=3000), only={"C05"})
+    return out
+
+
+@check("C16")
+def c16(tier, seed):
+    out = Outcome("C16", tier, seed, "model_checking")
+    thorough = tier == "thorough"
+    out.rule = ("TLC enumerates inbox sequences over direct ADSS sharings (thresholds 0..3, empty message/coins, custom "
+                "transcript, shares of independent share() invocations) with and without one altered share; the harness "
+                "executes them with Commune::new/share/recover, compares independently produced shares byte-wise outside "
+                "the point, and re-shares every 7th recovered commune; adss-sizes covers lengths up to 100k and t<=128")
+    out.assumptions = [STAR_ASSUME]
+    _recover_family(out, "C16", ["Star_a_honest.cfg", "Star_a_faults.cfg"], seed, 6 if thorough else 4,
+                    stride=1 if thorough else 2)
+    out.add_vh(run_vh(["adss-sizes", "--seed", seed, "--tier", tier], timeout=3000), only={"C16"})
+    return out
+
+
+@check("C17")
+def c17(tier, seed):
+    out = Outcome("C17", tier, seed, "model_checking")
+    thorough = tier == "thorough"
+    out.rule = ("the honest inbox behaviours of MC_Star (counts t-1, t, t+1, mixtures of measurements, thresholds and "
+                "epochs) are executed through star_wasm::create_share / group_shares with UTF-8 valuations (incl. empty and "
+                "non-ASCII epochs); create_share output is compared with the core library; distinct = distinct inbox x valuation")
+    out.assumptions = [STAR_ASSUME, "group_shares is called natively (rlib), not through a WASM runtime"]
+    _recover_family(out, "C17", ["Star_q_honest.cfg"] + (["Star_t_honest.cfg"] if thorough else []), seed, 8)
+    return out
